@@ -33,7 +33,19 @@ nested container: type, identity, children; for every tensor: identity, dtype, s
 for other values: type and repr) — so a save that rewrites the caller's nested containers in place, swaps a tensor for a
 detached copy or changes the type of a value is a failing input; what is read back from the file must be value-equal.
 NumPy values inside metadata are generated in fixed cases but reported as information only (`info:` keys): the
-installed torch.load refuses them, so they are outside "values loadable by the installed torch"."""
+installed torch.load refuses them, so they are outside "values loadable by the installed torch".
+
+Seed round 6 (C11f): what happens to a loaded object LATER.  Fixed histories (file_afterlife_histories, run first): A.save(f);
+B = load / autoload of f (str / Path / file object); a second object B2 loaded the other way; A, B, B2 and torch.load(f) share no
+storage and an in-place edit of B2 changes neither B nor A; then f is saved again by A (swapped user unitary, new parameters;
+directly or by a ModelSaver whose file_name has no placeholder), overwritten by a larger / a smaller model / a metadata-only
+record, truncated, filled with garbage, deleted - after EVERY event B's parameters and unitary dictionary, and what torch.load
+returned before, are byte-identical to what they were.  Random histories: after every successful load / autoload the loaded
+state shares no storage with another state or a caller's dictionary, and (probability 1/2) the file is saved over by a twin /
+a larger / a smaller model, truncated, filled with garbage or deleted, every state of the history must be unchanged, and the file
+is put back byte for byte.  Guard (never a verdict): /proc/self/maps tells whether a tensor of the loaded object lies inside a
+memory mapping of a file; if so the events that shorten the file run in a forked child (reading such a tensor afterwards is a
+SIGBUS, reported as the failing input) and a random history is abandoned after its probe."""
 import os, io, copy, time, pathlib
 import numpy as np
 
@@ -44,7 +56,10 @@ RULE = ("histories of <= 12 (quick) / <= 25 (thorough) operations from a weighte
         "ModelSaver 'initial' file; train = in-place overwrite | real fit | real fit with ModelSaver callback; "
         "locations as str / pathlib.Path / file object; "
         "a case is one history; non-trivial := it contains an accepted save with non-empty metadata or a unitary "
-        "dictionary, followed by a successful load/autoload of that file")
+        "dictionary, followed by a successful load/autoload of that file; "
+        "+ 15 fixed afterlife histories (3 types x load/autoload x str/Path/file object) with 7 later file events each "
+        "(save-again with swapped unitary, larger model, smaller model, metadata-only, truncate, garbage, delete) and a "
+        "file-event probe after about every second load/autoload of a random history")
 ASSUMPTIONS = ["torch.save/torch.load round-trip tensors and plain containers bit-identically (observed on random tensors in every run)",
                "metadata keys are strings (data.update(**metadata) requires it); random histories put no dict of tensors under a reserved name (the fixed refusal cases do)",
                "states of one history do not share network objects (sharing is C20's subject)",
@@ -55,7 +70,11 @@ ASSUMPTIONS = ["torch.save/torch.load round-trip tensors and plain containers bi
                "read-back metadata is compared by value (dtype, shape, content); whether the requires_grad flag of a stored tensor survives "
                "the file is not demanded",
                "the epoch number a metadata function receives for the 'initial' file of ModelSaver(save_initial=True) is not "
-               "prescribed by the property: the check takes it from the call itself; for periodic files it must be the epoch"]
+               "prescribed by the property: the check takes it from the call itself; for periodic files it must be the epoch",
+               "seed round 6: raw truncation / garbage / deletion of a file are caller-side file-system events (what torch.save does to a path "
+               "when something smaller is saved there); a loaded object is required to be unaffected by them, nothing is demanded of later "
+               "loads of such a file; /proc/self/maps is read only as a guard against SIGBUS (which events run in a forked child), never as a verdict",
+               "metadata is passed as dict and collections.OrderedDict; non-dict mappings (MappingProxyType) are outside 'metadata dicts'"]
 
 KEYS = {"rbm_am": 0, "rbm_ph": 1, "unitary_dict": 2, "weights": 10, "visible_bias": 11, "hidden_bias": 12,
         "weights_W": 13, "weights_U": 14, "aux_bias": 15, "X": 20, "Y": 21, "Z": 22}
@@ -499,6 +518,7 @@ def one_history(ctx, hid, nops):
         mid = [None, 0, 1, 2][int(rng.integers(0, 4))]
         md = None if mid is None else R.mds[mid]
         touched, exc, malformed, op = [], None, False, None
+        abandon = False
         if r < 0.14:                                        # the parameter OBJECTS (or a whole network) are replaced
             owners = sorted({v[2][0] for v in saved.values() if v[2][0] in R.states})
             if owners and rng.random() < 0.75:              # prefer a model that has already been saved
@@ -757,6 +777,8 @@ def one_history(ctx, hid, nops):
                     check_loaded(ctx, "load", saved[fid][0], s, ocase, True)
                     ctx.count("load_after_save")
                     nontrivial = nontrivial or saved[fid][4]
+            if exc is None:
+                abandon = afterlife_probe(ctx, R, sid, fid, dict(case, step=step, op=label))
         elif r < 0.90:                                      # autoload
             kind = int(rng.integers(0, 3))
             if saved and rng.random() < 0.8:
@@ -787,6 +809,7 @@ def one_history(ctx, hid, nops):
                     nontrivial = nontrivial or saved[fid][4]
             if new is not None:
                 R.reg_state(next_sid, new)
+                abandon = afterlife_probe(ctx, R, next_sid, fid, dict(case, step=step, op=label))
                 next_sid += 1
         else:                                               # the caller mutates a metadata dict
             mid = int(rng.integers(0, 3))
@@ -811,6 +834,8 @@ def one_history(ctx, hid, nops):
             op = [7, mid, T.key(k), T.tok(v)]
         if op is not None:
             emit(op, label, exc, touched, malformed)
+        if abandon:
+            break
     # ---- correspondence with the model, step by step (result compared only as "raises" vs "does not raise")
     m = ctx.get_model()
     i = 0
@@ -1263,8 +1288,390 @@ def nested_live_metadata_histories(ctx):
         ctx.count("info:numpy values nested in metadata (not loadable by torch.load): save " + res)
 
 
+# ----------------------------------------------------------------------------- seed round 6: what happens to a loaded object LATER
+AFTERLIFE = ("an object obtained by load / autoload keeps the parameters and the unitary dictionary it was given, whatever is "
+             "afterwards saved to (or done with) the file it came from")
+AFTERLIFE_RAW = "what torch.load of the file returned earlier (metadata included) is unchanged by later writes to the file"
+NO_SHARING = ("objects loaded from one file share no storage with each other, with the saved model, or with another state of "
+              "the history")
+NO_SHARING_BEHAVIOUR = "editing one of two objects loaded from the same file in place changes neither the other nor the saved model"
+
+
+def file_mappings():
+    """[(lo, hi, path)] of the file-backed memory mappings of this process (Linux /proc/self/maps; [] elsewhere)."""
+    out = []
+    try:
+        with open("/proc/self/maps") as fh:
+            for line in fh:
+                p = line.split(None, 5)
+                if len(p) == 6 and p[5].startswith("/"):
+                    lo, hi = p[0].split("-")
+                    out.append((int(lo, 16), int(hi, 16), p[5].strip()))
+    except OSError:
+        pass
+    return out
+
+
+def state_tensors(s):
+    """[(label, tensor)]: every parameter and buffer of every network, every unitary."""
+    import torch
+    out = []
+    for n in s.networks:
+        rbm = getattr(s, n)
+        out += [("%s.%s" % (n, k), p.data) for k, p in rbm.named_parameters()]
+        out += [("%s.%s (buffer)" % (n, k), b) for k, b in rbm.named_buffers()]
+    u = getattr(s, "unitary_dict", None)
+    if isinstance(u, dict):
+        out += [("unitary_dict[%r]" % (k,), v) for k, v in u.items() if isinstance(v, torch.Tensor)]
+    return out
+
+
+def nested_tensors(obj, path="file"):
+    import torch
+    if isinstance(obj, torch.Tensor):
+        return [(path, obj)]
+    if isinstance(obj, dict):
+        return [x for k, v in obj.items() for x in nested_tensors(v, "%s[%r]" % (path, k))]
+    if isinstance(obj, (list, tuple)):
+        return [x for i, v in enumerate(obj) for x in nested_tensors(v, "%s[%d]" % (path, i))]
+    return []
+
+
+def backing(tensors):
+    """[(label, path)] for the tensors whose memory lies inside a memory mapping of a FILE.  Used as a guard only (reading
+    such a tensor after its file was shortened kills the process with SIGBUS), never as a verdict."""
+    maps = file_mappings()
+    res = []
+    for label, t in tensors:
+        if t.numel() == 0:
+            continue
+        ptr = t.data_ptr()
+        for lo, hi, p in maps:
+            if lo <= ptr < hi:
+                res.append((label, p))
+                break
+    return res
+
+
+def frozen(tensors):
+    return [(label, str(t.dtype), tuple(t.shape), t.detach().contiguous().numpy().tobytes()) for label, t in tensors]
+
+
+def frozen_diff(before, after):
+    """First difference between two `frozen` records, in words (None if equal)."""
+    if before == after:
+        return None
+    lb, la = [x[0] for x in before], [x[0] for x in after]
+    if lb != la:
+        return "tensors %s -> %s" % (lb, la)
+    for b, a in zip(before, after):
+        if b != a:
+            vb = np.frombuffer(b[3], dtype=np.float64)[:8].tolist() if b[1] == "torch.float64" else "..."
+            va = np.frombuffer(a[3], dtype=np.float64)[:8].tolist() if a[1] == "torch.float64" and len(a[3]) % 8 == 0 else "..."
+            return "%s: %s %s %s -> %s %s %s" % (b[0], b[1], b[2], vb, a[1], a[2], va)
+    return "?"
+
+
+def storage_overlap(ts1, ts2):
+    """First pair of labels whose tensors live in overlapping storage (None if there is none)."""
+    def rng_(t):
+        st = t.untyped_storage()
+        return st.data_ptr(), st.data_ptr() + st.nbytes()
+    r2 = [(l, rng_(t)) for l, t in ts2 if t.numel()]
+    for l1, t1 in ts1:
+        if not t1.numel():
+            continue
+        lo, hi = rng_(t1)
+        for l2, (lo2, hi2) in r2:
+            if lo < hi2 and lo2 < hi:
+                return (l1, l2)
+    return None
+
+
+def in_child(fn, timeout=30.0):
+    """Run fn() -> int in a forked child (an event after which reading a file-backed tensor may kill the process).
+    Returns ("exit", code) | ("signal", number) | ("timeout", None)."""
+    import signal
+    pid = os.fork()
+    if pid == 0:
+        code = 3
+        try:
+            code = int(fn())
+        except BaseException:
+            code = 3
+        finally:
+            os._exit(code)
+    t0 = time.time()
+    while True:
+        done, st = os.waitpid(pid, os.WNOHANG)
+        if done:
+            break
+        if time.time() - t0 > timeout:
+            os.kill(pid, signal.SIGKILL)
+            os.waitpid(pid, 0)
+            return ("timeout", None)
+        time.sleep(0.005)
+    if os.WIFSIGNALED(st):
+        return ("signal", os.WTERMSIG(st))
+    return ("exit", os.WEXITSTATUS(st))
+
+
+def build_for_afterlife(ctx, cls, args, ud_kind):
+    from qucumber.nn_states import PositiveWaveFunction
+    from qucumber.utils import unitaries
+    if cls is PositiveWaveFunction:
+        s = cls(*args, gpu=False)
+    else:
+        ud = unitaries.create_dict()
+        if ud_kind == "user-added":
+            ud["H"] = rand_unitary(ctx)
+        elif ud_kind == "custom":
+            ud = {"X": ud["X"], "Q": rand_unitary(ctx)}
+        elif ud_kind == "many":
+            for i in range(6):
+                ud["W%d" % i] = rand_unitary(ctx)
+        elif ud_kind == "minimal":
+            ud = {"X": ud["X"]}
+        s = cls(*args, unitary_dict=ud, gpu=False)
+    randomise_inplace(ctx, s)
+    return s
+
+
+def file_afterlife_histories(ctx):
+    """Seed round 6 (C11f), always executed.  save A -> f; B = load / autoload of f (location as str / Path / file object);
+    a second object B2 loaded from f the other way; then f is: saved again by A with a swapped user unitary and new
+    parameters (directly / through a ModelSaver whose file_name has no placeholder), overwritten by a LARGER model, by a
+    SMALLER model, by a metadata-only record, truncated, overwritten with bytes that are no checkpoint, deleted.  After every
+    event B (parameters, unitary dictionary) and what torch.load returned before the events must be exactly what they
+    were.  Before the events: A, B, B2 and the torch.load result share no storage, and an in-place edit of B2 changes
+    neither B nor A.  If a tensor of B lies inside a memory mapping of a file (guard from /proc/self/maps), the events that
+    SHORTEN the file are executed in a forked child (reading such a tensor afterwards kills the process) and the file is
+    restored before the parent continues."""
+    import torch
+    from collections import OrderedDict
+    from qucumber.nn_states import ComplexWaveFunction, DensityMatrix, PositiveWaveFunction
+    from qucumber.callbacks import ModelSaver
+    configs = ((PositiveWaveFunction, (3, 2), (5, 7), (1, 1)), (ComplexWaveFunction, (2, 3), (5, 7), (1, 1)),
+               (DensityMatrix, (2, 3, 1), (5, 7, 4), (1, 1, 1)))
+    ways = (("load", "str"), ("load", "Path"), ("load", "file object"), ("autoload", "str"), ("autoload", "Path"))
+    n_fail0 = len(ctx.failures)
+    for ci, (cls, args, big, small) in enumerate(configs):
+        has_ud = cls is not PositiveWaveFunction
+        for wi, (how, form) in enumerate(ways):
+            ctx.torch_seed()
+            ud_kind = ["user-added", "custom"][(ci + wi) % 2]
+            A = build_for_afterlife(ctx, cls, args, ud_kind)
+            folder = os.path.join(ctx.scratch, "afterlife_%s_%d" % (cls.__name__, wi))
+            os.makedirs(folder, exist_ok=True)
+            f = os.path.join(folder, "latest.pt")
+            md = {"run": 1, "t": torch.tensor(ctx.rng.normal(size=(2, 2))), "cfg": {"lr": 0.5, "w": [torch.tensor(ctx.rng.normal(size=3))]}}
+            case = {"history": ["A.save(f)", "B = %s(f as %s)" % (how, form), "B2 = the other way"], "state": cls.__name__,
+                    "unitary_dict": ud_kind if has_ud else None, "seed": ctx.seed}
+            ctx.case(case, nontrivial=True)
+            ok, _ = ctx.call("save", case, A.save, f, md)
+            if not ok:
+                continue
+            snapA = snapshot(A)
+            raw = torch.load(f)
+
+            def do_load(how_, form_):
+                loc = f if form_ == "str" else pathlib.Path(f)
+                if how_ == "autoload":
+                    return cls.autoload(loc, gpu=False)
+                t_ = build_for_afterlife(ctx, cls, args, "default")
+                if form_ == "file object":
+                    with open(f, "rb") as fh:
+                        t_.load(fh)
+                else:
+                    t_.load(loc)
+                return t_
+            ok, B = ctx.call(how, case, do_load, how, form)
+            ok2, B2 = ctx.call("second load of the same file", case, do_load, "load" if how == "autoload" else "autoload", "str")
+            if not (ok and ok2):
+                continue
+            check_loaded(ctx, how, snapA, B, case, True)
+            check_loaded(ctx, "second object loaded from the file", snapA, B2, case, True)
+            tB, tA, tB2, tRaw = state_tensors(B), state_tensors(A), state_tensors(B2), nested_tensors(raw)
+            fB, fA, fRaw = frozen(tB), frozen(tA), frozen(tRaw)
+            groups = [("the saved model", tA), ("the loaded object", tB), ("the second loaded object", tB2), ("torch.load of the file", tRaw)]
+            shared = [(g1, g2, storage_overlap(t1, t2)) for i, (g1, t1) in enumerate(groups) for g2, t2 in groups[i + 1:]]
+            shared = [x for x in shared if x[2] is not None]
+            ctx.require(NO_SHARING, not shared, case, {"overlapping storage": shared[:3]})
+            # behaviour: B2 is edited in place (every parameter, every unitary) and then dropped
+            for _, t_ in tB2:
+                if t_.is_floating_point():
+                    t_.add_(1.0)
+            ctx.require(NO_SHARING_BEHAVIOUR, frozen(tB) == fB and frozen(tA) == fA and frozen(tRaw) == fRaw, case,
+                        frozen_diff(fB, frozen(tB)) or frozen_diff(fA, frozen(tA)) or frozen_diff(fRaw, frozen(tRaw)))
+            guard = backing(tB + tRaw)
+            if guard:
+                ctx.count("afterlife: tensors of a loaded object lie inside a memory mapping of a file (shortening events run in a child)")
+            # ---- the events
+            C = build_for_afterlife(ctx, cls, big, "many")
+            D = build_for_afterlife(ctx, cls, small, "minimal")
+            pad = {"pad": "x" * 600}
+
+            def save_again():
+                if has_ud:
+                    A.unitary_dict["H" if "H" in A.unitary_dict else "Q"] = rand_unitary(ctx)     # the user swaps a custom unitary
+                    A.unitary_dict["X"].copy_(rand_unitary(ctx))                                   # and edits another in place
+                A.reinitialize_parameters()
+                randomise_inplace(ctx, A)
+                md2 = OrderedDict(md, run=2, **pad)
+                if wi % 3 == 0:
+                    A.save(f, md2)
+                elif wi % 3 == 1:
+                    A.save(pathlib.Path(f), md2)
+                else:                                           # what a ModelSaver does when file_name has no placeholder
+                    ModelSaver(period=1, folder_path=folder, file_name="latest.pt", save_initial=False, metadata=md2).on_epoch_end(A, 2)
+
+            def write_bytes(b):
+                with open(f, "wb") as fh:
+                    fh.write(b)
+            events = [("A (same sizes) gets another user unitary and new parameters and is saved again to f", save_again, False),
+                      ("a LARGER model of the same type is saved to f", lambda: C.save(f, dict(md, run=3, **pad)), False),
+                      ("a SMALLER model of the same type is saved to f", lambda: D.save(f), True),
+                      ("a ModelSaver(metadata_only=True) writes to f",
+                       lambda: ModelSaver(period=1, folder_path=folder, file_name="latest.pt", save_initial=False, metadata={"k": 1},
+                                          metadata_only=True).on_epoch_end(A, 1), True),
+                      ("f is truncated to 0 bytes", lambda: write_bytes(b""), True),
+                      ("f is overwritten with bytes that are no checkpoint", lambda: write_bytes(b"not a checkpoint" * 3), True),
+                      ("f is deleted", lambda: os.remove(f), False)]
+            for label, fn, shortens in events:
+                ecase = dict(case, history=case["history"] + [label], event=label)
+                if guard and shortens:
+                    with open(f, "rb") as fh:
+                        bytes0 = fh.read()
+
+                    def child():
+                        fn()
+                        return 0 if (frozen(tB) == fB and frozen(tRaw) == fRaw) else 4
+                    res = in_child(child)
+                    write_bytes(bytes0)                         # before the parent reads anything again
+                    ctx.count("afterlife: event run in a child -> %s %s" % res)
+                    if res[0] != "timeout":
+                        ctx.require(AFTERLIFE, res == ("exit", 0), ecase,
+                                    "reading the loaded object after the event: child process %s %s%s"
+                                    % (res[0], res[1], " (SIGBUS: the object's tensors are views of a memory mapping of the file: %s)" % (guard[:2],)
+                                       if res == ("signal", 7) else ""))
+                    continue
+                okE, _ = ctx.call("a later write to the file", ecase, fn)
+                nowB, nowRaw = frozen(tB), frozen(tRaw)
+                ctx.require(AFTERLIFE, nowB == fB, ecase, frozen_diff(fB, nowB))
+                ctx.require(AFTERLIFE_RAW, nowRaw == fRaw, ecase, frozen_diff(fRaw, nowRaw))
+                ctx.count("afterlife:" + label.split(" is ")[-1][:40])
+            # B still saves / reloads as what it was given
+            f2 = os.path.join(folder, "again.pt")
+            ok, _ = ctx.call("save of the loaded object after the events", case, B.save, f2, {"k": 1})
+            ok, n = ctx.call("autoload of that file", case, lambda: cls.autoload(f2, gpu=False)) if ok else (False, None)
+            if ok:
+                check_loaded(ctx, "save + autoload of the loaded object after the events", snapA, n, case, True)
+            ctx.traces += 1
+    # ---- metadata in the mapping forms a dict can take (OrderedDict; the SAME object re-used by a second call with another state)
+    for cls, args in ((PositiveWaveFunction, (3, 2)), (ComplexWaveFunction, (2, 3)), (DensityMatrix, (2, 3, 1))):
+        s, s2 = build_for_afterlife(ctx, cls, args, "user-added"), build_for_afterlife(ctx, cls, args, "custom")
+        md = OrderedDict([("z", 1), ("a", {"lr": 0.5}), ("t", torch.tensor([1.0, 2.0]))])
+        fp, want = fingerprint(md), value_copy(md)
+        folder = os.path.join(ctx.scratch, "odict_%s" % cls.__name__)
+        ms = ModelSaver(period=1, folder_path=folder, file_name="e{}", save_initial=False, metadata=md)
+        case = {"history": ["s.save(f1, OrderedDict)", "s2.save(f2, the same object)", "ModelSaver(metadata=the same object) x 2"], "state": cls.__name__}
+        ctx.case(case, nontrivial=True)
+        calls = [lambda: s.save(os.path.join(folder, "e1"), md), lambda: s2.save(os.path.join(folder, "e2"), md),
+                 lambda: ms.on_epoch_end(s, 3), lambda: ms.on_epoch_end(s2, 4)]
+        for e, (fcall, owner) in enumerate(zip(calls, (s, s2, s, s2)), 1):
+            ok, _ = ctx.call("save with an OrderedDict as metadata", case, fcall)
+            ctx.require(PURITY_DEEP, fingerprint(md) == fp, dict(case, save_number=e), describe_change(fp, fingerprint(md)))
+            if ok:
+                d = torch.load(os.path.join(folder, "e%d" % e))
+                bad = [k for k, v in want.items() if k not in d or not deep_eq(d[k], v)]
+                ctx.require("the written file holds every metadata key/value, every network's state dict and unitary_dict",
+                            not bad and all(n in d and deep_eq(dict(d[n]), dict(getattr(owner, n).state_dict())) for n in owner.networks)
+                            and (not hasattr(owner, "unitary_dict") or deep_eq(d.get("unitary_dict"), owner.unitary_dict)), dict(case, save_number=e))
+        ctx.count("fixed_ordereddict_metadata_same_object_two_states")
+        ctx.traces += 1
+    return len(ctx.failures) > n_fail0
+
+
+def afterlife_probe(ctx, R, sid, fid, ocase):
+    """Inside a random history, right after a successful load / autoload of file `fid` into state `sid`: something else is
+    saved to / done with the file, every state of the history (and every dictionary the caller handed to a constructor)
+    must be what it was, and the file is put back byte for byte (the history and the model never see the event).
+    Returns True if the history has to be abandoned (tensors of the loaded state lie in a memory mapping of a file: the
+    later steps of the history could kill the process)."""
+    import torch
+    rng = ctx.rng
+    s = R.states[sid]
+    path = R.path(fid)
+    guard = backing(state_tensors(s))
+    others = [(i, x) for i, x in R.states.items() if i != sid]
+    shared = [(i, storage_overlap(state_tensors(s), state_tensors(x))) for i, x in others]
+    shared = [x for x in shared if x[1] is not None]
+    shared_ud = [storage_overlap(state_tensors(s), nested_tensors(d, "caller's dictionary")) for d in R.caller_uds]
+    ctx.require(NO_SHARING, not shared and not any(shared_ud), ocase, {"state, tensors": shared[:3], "caller dictionaries": [x for x in shared_ud if x][:2]})
+    if not guard and rng.random() < 0.5:
+        return False
+    before = R.bystanders(None)
+    with open(path, "rb") as fh:
+        bytes0 = fh.read()
+    d0 = torch.load(path)
+    reserved = set(s.networks) | {"unitary_dict"}
+    md0 = {k: v for k, v in d0.items() if k not in reserved and isinstance(k, str)}
+    md0["pad"] = "x" * 600                                  # the file does not get shorter
+    events = ["twin saved", "larger model saved"] + ([] if guard else ["smaller model saved", "truncated", "garbage", "deleted"])
+    ev = str(rng.choice(events))
+    try:
+        if ev == "twin saved":                              # same type, same sizes, other values, one unitary swapped for a new tensor
+            twin = copy.deepcopy(s)
+            for _, t_ in state_tensors(twin):
+                if t_.is_floating_point():
+                    t_.mul_(-0.5).add_(0.25)
+            if isinstance(getattr(twin, "unitary_dict", None), dict) and twin.unitary_dict:
+                twin.unitary_dict[sorted(twin.unitary_dict)[-1]] = rand_unitary(ctx)
+            twin.save(path, md0)
+        elif ev in ("larger model saved", "smaller model saved"):
+            big = ev.startswith("larger")
+            nv = int(s.num_visible) + 2 if big else 1
+            nh = int(s.num_hidden) + 3 if big else 1
+            argsx = (nv, nh) + ((int(s.num_aux) + 2 if big else 1,) if hasattr(s, "num_aux") else ())
+            other = build_for_afterlife(ctx, type(s), argsx, "many" if big else "minimal")
+            if big and isinstance(getattr(s, "unitary_dict", None), dict):
+                for k_ in s.unitary_dict:
+                    other.unitary_dict.setdefault(k_, rand_unitary(ctx))
+            other.save(path, md0 if big else None)
+        elif ev == "truncated":
+            open(path, "wb").close()
+        elif ev == "garbage":
+            with open(path, "wb") as fh:
+                fh.write(b"\x00garbage" * int(rng.integers(1, 2000)))
+        else:
+            os.remove(path)
+        label = "%s, then file f%d: %s" % (ocase["op"], fid, ev)
+        pcase = dict(ocase, op=label)
+        if guard and os.path.exists(path) and os.path.getsize(path) < len(bytes0):
+            ctx.count("afterlife probe: file got shorter while tensors are file-backed; not read")
+        else:
+            after = R.bystanders(None)
+            changed = [i for i in before[0] if after[0].get(i) != before[0][i]]
+            detail = {"changed states": changed, "loaded state": sid}
+            if changed:
+                x = R.states[changed[0]]
+                detail["now"] = repr({k: v.flatten().tolist()[:4] for k, v in getattr(x, "unitary_dict", {}).items()})[:300]
+            ctx.require(AFTERLIFE, not changed, pcase, detail)
+            ctx.require("a later write to a file leaves the dictionaries the caller passed to constructors unchanged", after[1] == before[1], pcase)
+        ctx.count("afterlife probe:" + ev)
+    finally:
+        with open(path, "wb") as fh:
+            fh.write(bytes0)
+    if guard:
+        ctx.count("history abandoned: tensors of a loaded state lie inside a memory mapping of a file")
+    return bool(guard)
+
+
 def run(ctx):
     trust_check(ctx)
+    if file_afterlife_histories(ctx):
+        # a failing input is on record; the remaining histories would go on reading objects whose file they rewrite
+        return
     fixed_histories(ctx)
     nested_live_metadata_histories(ctx)
     shared_and_inplace_histories(ctx)
